@@ -241,10 +241,35 @@ func genStruct(t *rapid.T, depth int) drive.TypeDesc {
 	}
 	n := gen.Range(t, 0, 5)
 	used := map[string]bool{}
+	if depth == 0 && gen.Chance(t, 8) {
+		// a chain of embedded structs 2-4 levels deep whose innermost level has
+		// several fields (promoted through every level)
+		levels := gen.Range(t, 2, 4)
+		inner := drive.TypeDesc{K: "struct"}
+		k := gen.Range(t, 2, 4)
+		for i := 0; i < k; i++ {
+			inner.Fields = append(inner.Fields, drive.FieldDesc{Name: "P" + fmt.Sprint(i), T: drive.TypeDesc{K: gen.Pick(t, []string{"int", "string", "bool", "float64", "int8"})}})
+			used["P"+fmt.Sprint(i)] = true
+		}
+		for l := 0; l < levels; l++ {
+			outer := drive.TypeDesc{K: "struct", Fields: []drive.FieldDesc{{Name: "Emb" + fmt.Sprint(l), T: inner, Embedded: true}}}
+			if gen.Chance(t, 50) {
+				nm := "Q" + fmt.Sprint(l)
+				outer.Fields = append(outer.Fields, drive.FieldDesc{Name: nm, T: drive.TypeDesc{K: "int"}})
+				used[nm] = true
+			}
+			inner = outer
+		}
+		d.Fields = append(d.Fields, inner.Fields...)
+	}
 	for i := 0; i < n; i++ {
 		f := drive.FieldDesc{Name: c16FieldNames[i], T: genType(t, depth+1)}
 		ionName := f.Name
-		switch gen.Intn(t, 8) {
+		switch gen.Intn(t, 9) {
+		case 8:
+			// differs from another field's name only by case
+			ionName = strings.ToLower(c16FieldNames[gen.Intn(t, n)])
+			f.Tag = ionName
 		case 0:
 			ionName = gen.Pick(t, []string{"renamed", "x y", "a", "é", "name", "$ion"}) + fmt.Sprint(i)
 			f.Tag = ionName
